@@ -690,6 +690,24 @@ fn gen_aspath(rng: &mut Rng) -> Vec<u8> {
 }
 
 /// a valid value for a typed attribute
+/// `n` list elements of `unit` octets; one time in four some elements REPEAT earlier ones (adjacent or
+/// apart) - a receiver that re-encodes must not merge, sort or drop them (round-5 seed: LARGE_COMMUNITIES
+/// de-duplicated in `to_owned`)
+pub(crate) fn units(rng: &mut Rng, unit: usize, n: usize) -> Vec<u8> {
+    let mut v: Vec<u8> = Vec::with_capacity(unit * n);
+    let dup = rng.chance(1, 4);
+    for i in 0..n {
+        if dup && i > 0 && rng.chance(1, 2) {
+            let j = if rng.chance(1, 2) { i - 1 } else { rng.usize(0, i - 1) };
+            let e = v[j * unit..(j + 1) * unit].to_vec();
+            v.extend_from_slice(&e);
+        } else {
+            v.extend(rng.bytes(unit));
+        }
+    }
+    v
+}
+
 fn gen_val(rng: &mut Rng, code: u8) -> Vec<u8> {
     let big = rng.chance(1, 20);
     let k = |rng: &mut Rng, unit: usize| -> usize {
@@ -701,11 +719,11 @@ fn gen_val(rng: &mut Rng, code: u8) -> Vec<u8> {
         3 | 4 | 5 | 9 | 20 | 35 => rng.bytes(4),
         6 => vec![],
         7 | 18 => rng.bytes(8),
-        8 | 10 => { let n = k(rng, 4); rng.bytes(4 * n) }
-        16 => { let n = k(rng, 8); rng.bytes(8 * n) }
+        8 | 10 => { let n = k(rng, 4); units(rng, 4, n) }
+        16 => { let n = k(rng, 8); units(rng, 8, n) }
         21 => rng.bytes(5),
-        25 => { let n = k(rng, 20); rng.bytes(20 * n) }
-        32 => { let n = k(rng, 12); rng.bytes(12 * n) }
+        25 => { let n = k(rng, 20); units(rng, 20, n) }
+        32 => { let n = k(rng, 12); units(rng, 12, n) }
         128 => { let n = if big { 300 } else { rng.usize(0, 12) }; rng.bytes(4 + n) }
         255 => { let n = if big { 260 } else { rng.usize(0, 9) }; rng.bytes(n) }
         _ => { let n = rng.usize(0, 9); rng.bytes(n) }
